@@ -27,6 +27,15 @@ import Bng.Model.AcctWire
   a queued Start can be overtaken by a Stop (D24); records queued by the recovery procedure are
   volatile again (KF-acct-recovery-volatile).
 
+  Two threads: the API thread (`pc`, advanced by `tick`) and the background processor (`ppc`, advanced by
+  `ptick`); `deq`/`retry` start a processor step whenever the processor goroutine is alive (not during the
+  recovery in Start(), not after Stop() has cancelled the workers), independently of the API call in
+  progress, so every interleaving of the processor's micro-steps with those of an API call is a history.
+  The server's answer to a request is three-valued (`Ans`): `up` = accepted and acknowledged, `down` = not
+  received (the client sees an error), `lost` = accepted by the server but the client sees an error (reply
+  lost or late).  `crashTorn` = a crash in the middle of the file write of a persist step (after the fix:
+  temporary file + rename, the previous content survives).
+
   Not modelled: the retry *schedule* (NextRetry/back-off: `retry` retries every record of the map, as the
   code does once they are due), the interim ticker (an `interim` op is one due session), Acct-Session-Time,
   packet counters, queue-full logging, API calls overlapping each other or the processor.
@@ -37,6 +46,13 @@ namespace Bng.Acct
 open Bng
 
 inductive Kind | start | interim | stop
+  deriving DecidableEq, Repr
+
+/-- the RADIUS server's answer to one request, as the two sides see it -/
+inductive Ans
+  | up      -- accepted, acknowledged to the client
+  | down    -- never received; the client gets an error
+  | lost    -- accepted by the server; the client gets an error (reply lost or late)
   deriving DecidableEq, Repr
 
 /-- an Accounting-Request as the server sees it -/
@@ -107,7 +123,8 @@ structure Vol where
   sessions : AMap Nat Sess := []
   pending  : List PRec := []        -- pendingRecords (keyed by PRec.id)
   queue    : List Nat := []         -- pendingQueue channel: record ids, head first
-  pc       : Option Frame := none
+  pc       : Option Frame := none     -- the API call in progress
+  ppc      : Option Frame := none     -- the processor step in progress (procSend / procRemove frames)
   deriving Repr
 
 structure Dur where
@@ -128,9 +145,18 @@ structure State where
   log   : List Rec := []            -- accepted by the RADIUS server, oldest first
   clock : Nat := 0                  -- source of record ids (time.Now().UnixNano() in the code)
   ctr   : AMap Nat (UInt64 × UInt64) := []   -- environment: what the CounterFetcher returns
-  res   : Res := .none              -- result of the last call
+  res   : Res := .none              -- result of the last API call
+  pres  : Res := .none              -- result of the last processor step
   /-- ghost: what the current call processed at its transmit steps, in order -/
   ord   : List Nat := []
+  /-- ghost: the records the current processor step transmitted, in order -/
+  pord  : List Nat := []
+  /-- ghost: for every entry of `log`, whether the client got the acknowledgement -/
+  logAck : List Bool := []
+  /-- ghost: sessions a Stop of which was acknowledged to the client -/
+  ackedStops : List Nat := []
+  /-- ghost: sessions for which the server accepted a Stop AFTER one had been acknowledged to the client -/
+  dup : List Nat := []
   /-- ghost: every (session id, identifiers) StartSession registered -/
   registered : List (Nat × Nat) := []
   /-- ghost: sessions whose StartSession ran to completion -/
@@ -162,7 +188,12 @@ def isStopOf (s : Nat) (r : Rec) : Bool := r.kind == .stop && r.sid == s
 def isStartOf (s : Nat) (r : Rec) : Bool := r.kind == .start && r.sid == s
 
 /-- the server accepted (and acknowledged) the request -/
-def accept (σ : State) (r : Rec) : State := { σ with log := σ.log ++ [r] }
+def accept (σ : State) (r : Rec) (acked : Bool) : State :=
+  { σ with
+    log := σ.log ++ [r]
+    logAck := σ.logAck ++ [acked]
+    dup := if r.kind == .stop && σ.ackedStops.contains r.sid then r.sid :: σ.dup else σ.dup
+    ackedStops := if acked && r.kind == .stop then r.sid :: σ.ackedStops else σ.ackedStops }
 
 /-- queuePendingRecord: the record goes into the retry map and, if there is room, into the channel -/
 def enqueue (σ : State) (r : Rec) (viaRec : Bool) : State :=
@@ -177,11 +208,16 @@ def enqueue (σ : State) (r : Rec) (viaRec : Bool) : State :=
     recVol := if viaRec && r.kind == .stop then r.sid :: σ.recVol else σ.recVol }
 
 /-- `if err := SendAccounting(req); err != nil { queuePendingRecord(req) }` -/
-def send (σ : State) (r : Rec) (ans viaRec : Bool) : State :=
-  if ans then accept σ r else enqueue σ r viaRec
+def send (σ : State) (r : Rec) (ans : Ans) (viaRec : Bool) : State :=
+  match ans with
+  | .up => accept σ r true
+  | .down => enqueue σ r viaRec
+  | .lost => enqueue (accept σ r false) r viaRec
 
 def setPc (σ : State) (pc : Option Frame) : State := { σ with vol := { σ.vol with pc := pc } }
+def setPpc (σ : State) (pc : Option Frame) : State := { σ with vol := { σ.vol with ppc := pc } }
 def noteOrd (σ : State) (x : Nat) : State := { σ with ord := σ.ord ++ [x] }
+def notePOrd (σ : State) (x : Nat) : State := { σ with pord := σ.pord ++ [x] }
 
 /-- the first record of `ids` that is still in the retry map (the check at the top of processPendingRecord) -/
 def nextProc (ps : List PRec) : List Nat → Option Frame
@@ -230,7 +266,7 @@ def recOfIds (ps : List PRec) (ids : List Nat) : List PRec :=
 
 /-! ## micro-steps, one per marker -/
 
-def tickStartSend (σ : State) (s : Nat) (ans : Bool) : State :=
+def tickStartSend (σ : State) (s : Nat) (ans : Ans) : State :=
   match AMap.lookup σ.vol.sessions s with
   | none => setPc σ none
   | some x =>
@@ -256,10 +292,11 @@ def tickStopPersist (σ : State) (s : Nat) : State :=
 def stopRec (s : Nat) (x : Sess) (cause : Nat) (c : UInt64 × UInt64) : Rec :=
   { kind := .stop, sid := s, ident := x.ident, cause := cause, inOct := c.1, outOct := c.2 }
 
-def tickStopSend (σ : State) (s : Nat) (ans : Bool) : State :=
+def tickStopSend (σ : State) (s : Nat) (ans : Ans) : State :=
   match AMap.lookup σ.vol.sessions s with
   | none => setPc σ none
-  | some x => setPc (send σ (stopRec s x x.stopCause (counters σ s)) ans false) (some (.stopDelete s ans))
+  | some x =>
+    setPc (send σ (stopRec s x x.stopCause (counters σ s)) ans false) (some (.stopDelete s (ans == .up)))
 
 def tickStopDelete (σ : State) (s : Nat) (acked : Bool) : State :=
   setPc { σ with vol := { σ.vol with sessions := AMap.erase σ.vol.sessions s } } (some (.stopRemove s acked))
@@ -270,61 +307,72 @@ def removeFile (σ : State) (s : Nat) : State :=
 def tickStopRemove (σ : State) (s : Nat) (acked : Bool) : State :=
   setPc (if acked then removeFile σ s else σ) none
 
-def tickIntSend (σ : State) (s : Nat) (ans : Bool) : State :=
+def tickIntSend (σ : State) (s : Nat) (ans : Ans) : State :=
   match AMap.lookup σ.vol.sessions s with
   | none => setPc σ none
   | some x =>
     let c := counters σ s
     let r : Rec := { kind := .interim, sid := s, ident := x.ident, cause := 0, inOct := c.1, outOct := c.2 }
-    if ans then
-      let σ := accept σ r
+    match ans with
+    | .up =>
+      let σ := accept σ r true
       setPc { σ with vol := { σ.vol with
         sessions := AMap.insert σ.vol.sessions s { x with lastIn := c.1, lastOut := c.2 } } } none
-    else setPc (enqueue σ r false) none
+    | .down => setPc (enqueue σ r false) none
+    | .lost => setPc (enqueue (accept σ r false) r false) none
 
-def tickProcSend (σ : State) (id : Nat) (rest : List Nat) (ans : Bool) : State :=
+/-- the part of processPendingRecord after a send the client saw fail -/
+def procFail (σ : State) (p : PRec) (id : Nat) (rest : List Nat) : State :=
+  if p.retries + 1 ≥ σ.cfg.maxRetries then
+    let σ := { σ with
+      vol := { σ.vol with pending := eraseP σ.vol.pending id }
+      abandoned := if p.req.kind == .stop then p.req.sid :: σ.abandoned else σ.abandoned }
+    setPpc σ (nextProc σ.vol.pending rest)
+  else
+    let σ := { σ with vol := { σ.vol with
+      pending := σ.vol.pending.map (fun q => if q.id == id then { q with retries := p.retries + 1 } else q) } }
+    setPpc σ (nextProc σ.vol.pending rest)
+
+def tickProcSend (σ : State) (id : Nat) (rest : List Nat) (ans : Ans) : State :=
   match findP σ.vol.pending id with
-  | none => setPc σ (nextProc σ.vol.pending rest)
+  | none => setPpc σ (nextProc σ.vol.pending rest)
   | some p =>
-    let σ := noteOrd σ id
-    if ans then
-      let σ := accept σ p.req
+    let σ := notePOrd σ id
+    match ans with
+    | .up =>
+      let σ := accept σ p.req true
       let σ := { σ with vol := { σ.vol with pending := eraseP σ.vol.pending id } }
-      if p.req.kind == .stop then setPc σ (some (.procRemove p.req.sid rest))
-      else setPc σ (nextProc σ.vol.pending rest)
-    else
-      if p.retries + 1 ≥ σ.cfg.maxRetries then
-        let σ := { σ with
-          vol := { σ.vol with pending := eraseP σ.vol.pending id }
-          abandoned := if p.req.kind == .stop then p.req.sid :: σ.abandoned else σ.abandoned }
-        setPc σ (nextProc σ.vol.pending rest)
-      else
-        let σ := { σ with vol := { σ.vol with
-          pending := σ.vol.pending.map (fun q => if q.id == id then { q with retries := q.retries + 1 } else q) } }
-        setPc σ (nextProc σ.vol.pending rest)
+      if p.req.kind == .stop then setPpc σ (some (.procRemove p.req.sid rest))
+      else setPpc σ (nextProc σ.vol.pending rest)
+    | .down => procFail σ p id rest
+    | .lost => procFail (accept σ p.req false) p id rest
 
+/-- the queued Stop was acknowledged: the persisted session is dropped -/
 def tickProcRemove (σ : State) (s : Nat) (rest : List Nat) : State :=
-  let σ := if (AMap.lookup σ.vol.sessions s).isSome then σ else removeFile σ s
-  setPc σ (nextProc σ.vol.pending rest)
+  setPpc (removeFile σ s) (nextProc σ.vol.pending rest)
 
-def tickDrainSend (σ : State) (s : Nat) (rest : List Nat) (ans : Bool) : State :=
+def tickDrainSend (σ : State) (s : Nat) (rest : List Nat) (ans : Ans) : State :=
   match AMap.lookup σ.vol.sessions s with
   | none => setPc σ (some (nextDrain rest))
   | some x =>
     let σ := noteOrd σ s
     let r := stopRec s x 11 (counters σ s)
-    if ans then setPc (accept σ r) (some (.drainRemove s rest))
-    else setPc (enqueue σ r false) (some (nextDrain rest))
+    match ans with
+    | .up => setPc (accept σ r true) (some (.drainRemove s rest))
+    | .down => setPc (enqueue σ r false) (some (nextDrain rest))
+    | .lost => setPc (enqueue (accept σ r false) r false) (some (nextDrain rest))
 
 def tickDrainRemove (σ : State) (s : Nat) (rest : List Nat) : State :=
   setPc (removeFile σ s) (some (nextDrain rest))
 
-/-- persistPendingRecords, then the process exits -/
+/-- Stop() after the drain: the workers have been cancelled and are waited for (the step is blocked while a
+    processor step is in progress), then persistPendingRecords, then the process exits -/
 def tickPersistPending (σ : State) : State :=
+  if σ.vol.ppc.isSome then σ else
   let d := if σ.vol.pending.isEmpty then σ.dur else { σ.dur with pfile := some σ.vol.pending }
   { σ with dur := d, up := false, vol := {} }
 
-def tickRecSend (σ : State) (s : Nat) (rest recd order : List Nat) (ans : Bool) : State :=
+def tickRecSend (σ : State) (s : Nat) (rest recd order : List Nat) (ans : Ans) : State :=
   match AMap.lookup σ.dur.files s with
   | none => setPc σ (some (nextRec recd order rest))
   | some x =>
@@ -344,7 +392,8 @@ def tickRecLoad (σ : State) (recd order : List Nat) : State :=
 def tickRecPendRemove (σ : State) : State :=
   setPc { σ with dur := { σ.dur with pfile := none } } none
 
-def tick (σ : State) (ans : Bool) : State :=
+/-- one micro-step of the API call in progress -/
+def tick (σ : State) (ans : Ans) : State :=
   match σ.vol.pc with
   | none => σ
   | some (.startSend s) => tickStartSend σ s ans
@@ -354,8 +403,8 @@ def tick (σ : State) (ans : Bool) : State :=
   | some (.stopDelete s a) => tickStopDelete σ s a
   | some (.stopRemove s a) => tickStopRemove σ s a
   | some (.intSend s) => tickIntSend σ s ans
-  | some (.procSend id rest) => tickProcSend σ id rest ans
-  | some (.procRemove s rest) => tickProcRemove σ s rest
+  | some (.procSend _ _) => σ
+  | some (.procRemove _ _) => σ
   | some (.drainSend s rest) => tickDrainSend σ s rest ans
   | some (.drainRemove s rest) => tickDrainRemove σ s rest
   | some .persistPending => tickPersistPending σ
@@ -363,6 +412,13 @@ def tick (σ : State) (ans : Bool) : State :=
   | some (.recRemove s rest recd order) => tickRecRemove σ s rest recd order
   | some (.recLoad recd order) => tickRecLoad σ recd order
   | some .recPendRemove => tickRecPendRemove σ
+
+/-- one micro-step of the processor step in progress -/
+def ptick (σ : State) (ans : Ans) : State :=
+  match σ.vol.ppc with
+  | some (.procSend id rest) => tickProcSend σ id rest ans
+  | some (.procRemove s rest) => tickProcRemove σ s rest
+  | _ => σ
 
 /-! ## calls: the part of each API function before its first marker -/
 
@@ -376,13 +432,22 @@ inductive Op
   | shutdown (order : List Nat)        -- Stop(); `order` = order in which the drain goroutines send
   | crash
   | restart (order : List Nat)         -- new manager + Start(); `order` = iteration order of pending.json
-  | tick (ans : Bool)
+  | crashTorn                          -- crash in the middle of the file write of a persist step
+  | tick (ans : Ans)                   -- one micro-step of the API call in progress
+  | ptick (ans : Ans)                  -- one micro-step of the processor step in progress
   deriving Repr
 
 /-- a call can begin only on a running instance with no call in progress -/
 def ready (σ : State) : Bool := σ.up && σ.vol.pc.isNone
 
 def begin (σ : State) (r : Res) : State := { σ with res := r, ord := [] }
+def pbegin (σ : State) (r : Res) : State := { σ with pres := r, pord := [] }
+
+/-- the processor goroutine exists: Start() has finished the recovery, Stop() has not yet cancelled it -/
+def procAlive : Option Frame → Bool
+  | some (.recSend _ _ _ _) | some (.recRemove _ _ _ _) | some (.recLoad _ _) | some .recPendRemove => false
+  | some .persistPending => false
+  | _ => true
 
 def callStart (σ : State) (s ident : Nat) : State :=
   if (AMap.lookup σ.vol.sessions s).isSome then begin σ .exists_
@@ -409,14 +474,14 @@ def callInterim (σ : State) (s : Nat) : State :=
 
 def callDeq (σ : State) : State :=
   match σ.vol.queue with
-  | [] => begin σ .empty
+  | [] => pbegin σ .empty
   | id :: q =>
-    let σ := begin σ .done
-    setPc { σ with vol := { σ.vol with queue := q } } (nextProc σ.vol.pending [id])
+    let σ := pbegin σ .done
+    setPpc { σ with vol := { σ.vol with queue := q } } (nextProc σ.vol.pending [id])
 
 def callRetry (σ : State) (order : List Nat) : State :=
   let ids := normalize order (σ.vol.pending.map (·.id))
-  setPc (begin σ .done) (nextProc σ.vol.pending ids)
+  setPpc (pbegin σ .done) (nextProc σ.vol.pending ids)
 
 def callShutdown (σ : State) (order : List Nat) : State :=
   let ss := normalize order (AMap.keys σ.vol.sessions)
@@ -425,6 +490,14 @@ def callShutdown (σ : State) (order : List Nat) : State :=
 def crash (σ : State) : State :=
   { σ with up := false, vol := {}, tainted := σ.registered.map (·.1) ++ σ.tainted }
 
+/-- what a crash in the middle of a persist step's file write leaves behind: the sessions directory exists;
+    the file itself keeps its previous content (temporary file + rename) -/
+def tornEffect (σ : State) : State :=
+  match σ.vol.pc with
+  | some (.startPersist s) | some (.stopPersist s) =>
+    if (AMap.lookup σ.vol.sessions s).isSome then { σ with dur := { σ.dur with dirMade := true } } else σ
+  | _ => σ
+
 def callRestart (σ : State) (order : List Nat) : State :=
   let σ := begin { σ with up := true, vol := {} } .ok
   if σ.dur.dirMade then setPc σ (some (nextRec [] order (sortNat (AMap.keys σ.dur.files))))
@@ -432,9 +505,19 @@ def callRestart (σ : State) (order : List Nat) : State :=
 
 def step (σ : State) : Op → State
   | .tick ans => tick σ ans
+  | .ptick ans => ptick σ ans
   | .crash => crash σ
+  | .crashTorn => crash (tornEffect σ)
   | .ctr s i o => { σ with ctr := AMap.insert σ.ctr s (i, o) }
   | .restart order => if σ.up then { σ with res := .alive } else callRestart σ order
+  | .deq =>
+    if !σ.up || !procAlive σ.vol.pc then { σ with pres := .dead }
+    else if σ.vol.ppc.isSome then { σ with pres := .busy }
+    else callDeq σ
+  | .retry order =>
+    if !σ.up || !procAlive σ.vol.pc then { σ with pres := .dead }
+    else if σ.vol.ppc.isSome then { σ with pres := .busy }
+    else callRetry σ order
   | op =>
     if !σ.up then { σ with res := .dead }
     else if σ.vol.pc.isSome then { σ with res := .busy }
@@ -442,27 +525,11 @@ def step (σ : State) : Op → State
       | .start s ident => callStart σ s ident
       | .interim s => callInterim σ s
       | .stop s cause => callStop σ s cause
-      | .deq => callDeq σ
-      | .retry order => callRetry σ order
       | .shutdown order => callShutdown σ order
       | _ => σ
 
 def run (σ : State) : List Op → State
   | [] => σ
   | op :: ops => run (step σ op) ops
-
-/-- run the call in progress to completion: `answers` are consumed by the transmitting steps in order
-    (missing answers = up).  `crashAt = k` stops in front of the k-th marker and crashes there. -/
-def finish : Nat → State → List Bool → Nat → State × Option Nat
-  | 0, σ, _, _ => (σ, none)
-  | fuel + 1, σ, answers, crashAt =>
-    match σ.vol.pc with
-    | none => (σ, none)
-    | some f =>
-      if crashAt = 1 then (crash σ, some (markerOf f))
-      else
-        let (a, answers') := if f.sends then
-            (match answers with | a :: t => (a, t) | [] => (true, [])) else (true, answers)
-        finish fuel (tick σ a) answers' (crashAt - 1)
 
 end Bng.Acct
